@@ -11,7 +11,26 @@ def gen_inlines(r, depth=0, plain=False, in_link=False, in_em=False, in_strong=F
     n = r.randint(1, 4)
     for i in range(n):
         k = r.random()
-        if plain or depth > 2 or k < 0.45:
+        if plain == "words" and k >= 0.45 and depth <= 2:
+            # text of plain words, but with inline structure around it: emphasis, strong, code spans, links, images, autolinks
+            kind = r.choice(["em", "strong", "code", "link", "link", "image", "autolink", "text"])
+            if kind == "em" and not in_em:
+                out.append(("em", gen_inlines(r, depth + 1, plain, in_link, True, in_strong, breaks)))
+            elif kind == "strong" and not in_strong:
+                out.append(("strong", gen_inlines(r, depth + 1, plain, in_link, in_em, True, breaks)))
+            elif kind == "code":
+                out.append(("code", r.choice(["code", "a b", "two words"])))
+            elif kind == "link" and not in_link:
+                out.append(("link", gen_inlines(r, depth + 1, plain, True, in_em, in_strong, breaks),
+                            r.choice(["/url", "http://e.x/a?b=c", "#frag", "/p/q.html", "https://e.x/M_(l)", "/a(b)c", "/caf\u00e9"]), r.choice([None, None, "title", "two words"])))
+            elif kind == "image" and not in_link:
+                out.append(("image", " ".join(r.choice(WORDS) for _ in range(r.randint(1, 2))), r.choice(["/i.png", "http://e.x/i.gif", "/img/p(1).png"]), r.choice([None, "t"])))
+            elif kind == "autolink" and not in_link:
+                out.append(("autolink", r.choice(["http://e.x/a", "https://e.x/?q=1", "mailto:a@b.co"])))
+            else:
+                out.append(("text", " ".join(r.choice(WORDS) for _ in range(r.randint(1, 3)))))
+            continue
+        if plain is True or depth > 2 or k < 0.45:
             out.append(("text", " ".join(r.choice(WORDS) for _ in range(r.randint(1, 3)))))
         elif k < 0.55 and not in_em:
             out.append(("em", gen_inlines(r, depth + 1, plain, in_link, True, in_strong, breaks)))
@@ -42,10 +61,10 @@ def gen_inlines(r, depth=0, plain=False, in_link=False, in_em=False, in_strong=F
             out.insert(0, ("text", r.choice(WORDS)))
         if out[-1][0] != "text":
             out.append(("text", r.choice(WORDS)))
-        if r.random() < 0.12 and not in_link:
+        if r.random() < 0.12 and not in_link and not plain:
             out.append(("escape", "\\"))      # ... or with an escaped backslash: the closing run follows the pair "\\\\" directly
     # breaks only between two text-ish items
-    if breaks and not plain and len(out) > 1 and r.random() < 0.3:
+    if breaks and plain is not True and len(out) > 1 and r.random() < 0.3:
         i = r.randint(1, len(out) - 1)
         out.insert(i, (r.choice(["soft", "soft", "hard", "hardbs"]),))
     # raw HTML never starts a line (it would be an HTML block): put a word before it
